@@ -278,8 +278,22 @@ def t_excitation(eng):
     m = SObj('Mininec', label='m')
     nsrc = fresh_int('nsrc')
     eng.assume(r_cmp('>=', nsrc, 1))
-    m.fields['sources'] = SList([('opaque', 'sources', nsrc)])
-    src.fields.update({'voltage': v, 'idx': idx, 'is_default': False, 'geo_tag': gt, 'geo_idx': gi, 'parent': m})
+    # the model's sources: an arbitrary sequence of which `src` is the element at some position
+    pos = fresh_int('pos')
+    eng.assume(b_and(r_cmp('>=', pos, 0), r_cmp('<', pos, nsrc)))
+    other = eng.uf('source.at', z3.IntSort(), z3.IntSort())
+
+    def source_at(i):
+        o = SObj('Excitation', other(term(i)), label='other-source')
+        return o
+    # functional consistency: the element at `pos` IS src (same identity, hence same fields)
+    eng.assume(SV(other(term(pos)) == src.ident, 'bool'))
+    m.fields['sources'] = SList([('seq', SSeq(nsrc, source_at, 'sources'))])
+    # the voltage is NOT stored as an explicit field: it is the (uninterpreted) field of the object with src's identity, so
+    # that `s.voltage` read through the sources sequence at position `pos` is the same value
+    eng.schema[('Excitation', 'voltage')] = 'complex'
+    v = eng.getfield(src, 'voltage')
+    src.fields.update({'idx': idx, 'is_default': False, 'geo_tag': gt, 'geo_idx': gi, 'parent': m})
     text = eng.call_qual('Excitation.as_cmdline', [src])
     ls = lines_of(text)
     names = [option_value(l)[0] for l in ls]
